@@ -173,3 +173,45 @@ pub fn entry_fingerprint(e: &SignedEntry) -> [u8; 32] {
 }
 #[allow(unused)]
 fn _unused(_: ranger::Message<SignedEntry>) {}
+
+// ---- H6: store access points and transaction age ------------------------------------------------
+static ACCESSES: AtomicUsize = AtomicUsize::new(0);
+static AGE_AT: AtomicUsize = AtomicUsize::new(usize::MAX);
+type AccessCallback = Box<dyn FnMut(usize) + Send>;
+static ACCESS_CB: std::sync::Mutex<Option<AccessCallback>> = std::sync::Mutex::new(None);
+
+/// Number of `Store::tables()` / `Store::modify()` accesses so far (process wide).
+pub fn store_accesses() -> usize {
+    ACCESSES.load(Ordering::SeqCst)
+}
+/// Make the open write transaction look older than the commit delay at the access with this
+/// (process wide, zero based) index. `usize::MAX` disables.
+pub fn age_transaction_at(access: usize) {
+    AGE_AT.store(access, Ordering::SeqCst);
+}
+/// Register a callback that runs after the commit decision of every store access, with the index
+/// of that access.
+pub fn set_access_callback(cb: Option<AccessCallback>) {
+    *ACCESS_CB.lock().unwrap() = cb;
+}
+pub(crate) fn store_access() -> bool {
+    let n = ACCESSES.fetch_add(1, Ordering::SeqCst);
+    n == AGE_AT.load(Ordering::SeqCst)
+}
+pub(crate) fn age_transaction(
+    mut w: crate::store::fs::tables::TransactionAndTables,
+    age: bool,
+) -> crate::store::fs::tables::TransactionAndTables {
+    if age {
+        if let Some(t) = w.since.checked_sub(crate::actor::MAX_COMMIT_DELAY * 2) {
+            w.since = t;
+        }
+    }
+    w
+}
+pub(crate) fn after_store_access() {
+    let n = ACCESSES.load(Ordering::SeqCst) - 1;
+    if let Some(cb) = ACCESS_CB.lock().unwrap().as_mut() {
+        cb(n);
+    }
+}
